@@ -91,6 +91,23 @@ struct Case {
     /// does), also to the restarted agent: a crash in the middle of storing it must not get in the way of storing it again
     #[serde(default)]
     reissue: bool,
+    /// every restart finds the files of the key directory stamped one hour in the FUTURE (the clock was set back between the
+    /// runs: a time correction, a snapshot restore, a boot before time synchronisation)
+    #[serde(default)]
+    clock_stepped_back: bool,
+}
+
+/// stamp every file of the directory one hour ahead of the present
+fn stamp_future(dir: &Path) {
+    if let Ok(rd) = std::fs::read_dir(dir) {
+        for e in rd.flatten() {
+            if let Ok(c) = std::ffi::CString::new(e.path().to_string_lossy().as_bytes()) {
+                let now = std::time::SystemTime::now().duration_since(std::time::UNIX_EPOCH).map(|d| d.as_secs()).unwrap_or(0) as i64 + 3600;
+                let ts = [libc::timespec { tv_sec: now, tv_nsec: 0 }, libc::timespec { tv_sec: now, tv_nsec: 0 }];
+                unsafe { libc::utimensat(libc::AT_FDCWD, c.as_ptr(), ts.as_ptr(), 0) };
+            }
+        }
+    }
 }
 
 struct Env {
@@ -245,6 +262,9 @@ fn prepare(env: &Env, c: &Case, key_dir: &Path) -> Result<(), String> {
             HostFaults::AttestLatchedReplyLost => s.attest_faults.push_back(Fault::ResetAfterCommit),
         }
     });
+    if c.clock_stepped_back && key_dir.is_dir() {
+        stamp_future(key_dir);
+    }
     Ok(())
 }
 
@@ -358,6 +378,9 @@ fn experiment(env: &Env, c: &Case, stats: &mut Stats) -> Result<(bool, String), 
         s.signature_failures.clear();
         s.counters.signed_ok = 0;
     });
+    if c.clock_stepped_back {
+        stamp_future(&key_dir);
+    }
     let r2 = run_child(env, &key_dir, None, "recover");
     if r2.timed_out {
         return Err(("inconclusive".into(), "recovery run exceeded its watchdog".into()));
@@ -498,36 +521,40 @@ fn main() {
         }
     } else {
         // (scenario, fault script) pairs: all scenarios fault-free; the fresh latch and the rotation with every single-fault script
-        let mut pairs: Vec<(Scenario, HostFaults, u8, bool)> = scenarios.iter().map(|s| (*s, HostFaults::None, 0u8, false)).collect();
+        let mut pairs: Vec<(Scenario, HostFaults, u8, u8)> = scenarios.iter().map(|s| (*s, HostFaults::None, 0u8, 0u8)).collect();
         for f in &fault_scripts[1..] {
-            pairs.push((Scenario::FreshLatch, f.clone(), 0, false));
+            pairs.push((Scenario::FreshLatch, f.clone(), 0, 0));
             if th {
-                pairs.push((Scenario::Rotation, f.clone(), 0, false));
-                pairs.push((Scenario::LocalKeyGarbage, f.clone(), 0, false));
+                pairs.push((Scenario::Rotation, f.clone(), 0, 0));
+                pairs.push((Scenario::LocalKeyGarbage, f.clone(), 0, 0));
             }
         }
         // key directories with a history: files of earlier re-keys whose names sort before / after the keys of this run
         let hist = |k: u64| -> u8 { 1 + (h64(&(params.seed, "history", k)) % 12) as u8 };
-        pairs.push((Scenario::FreshLatch, HostFaults::None, (5 + hist(1) % 8) | 16, false));
-        pairs.push((Scenario::Rotation, HostFaults::None, hist(2) | 16, true));
-        pairs.push((Scenario::RestartWithKeyOnDisk, HostFaults::None, hist(3) | 16, false));
-        pairs.push((Scenario::FreshLatch, HostFaults::None, 5 + hist(4) % 8, false));
+        pairs.push((Scenario::FreshLatch, HostFaults::None, (5 + hist(1) % 8) | 16, 0));
+        pairs.push((Scenario::Rotation, HostFaults::None, hist(2) | 16, 1));
+        pairs.push((Scenario::RestartWithKeyOnDisk, HostFaults::None, hist(3) | 16, 0));
+        pairs.push((Scenario::FreshLatch, HostFaults::None, 5 + hist(4) % 8, 0));
         // the host keeps handing out the same pending key until it is attested
-        pairs.push((Scenario::FreshLatch, HostFaults::None, 0, true));
-        pairs.push((Scenario::LocalKeyGarbage, HostFaults::None, 0, true));
+        pairs.push((Scenario::FreshLatch, HostFaults::None, 0, 1));
+        pairs.push((Scenario::LocalKeyGarbage, HostFaults::None, 0, 1));
+        // the clock was set back between the runs: every restart finds key files with time stamps in the future (flag 2)
+        pairs.push((Scenario::FreshLatch, HostFaults::None, 0, 2));
+        pairs.push((Scenario::RestartWithKeyOnDisk, HostFaults::None, hist(5), 2));
         if th {
             for (k, sc) in scenarios.iter().enumerate() {
-                pairs.push((*sc, HostFaults::None, hist(10 + k as u64) | 16, k % 2 == 0));
-                pairs.push((*sc, HostFaults::AttestLatchedReplyLost, hist(20 + k as u64), k % 2 == 1));
-                pairs.push((*sc, HostFaults::AcquireErrorFirst, 0, true));
+                pairs.push((*sc, HostFaults::None, hist(10 + k as u64) | 16, (k % 2 == 0) as u8));
+                pairs.push((*sc, HostFaults::AttestLatchedReplyLost, hist(20 + k as u64), (k % 2 == 1) as u8));
+                pairs.push((*sc, HostFaults::AcquireErrorFirst, 0, 1));
             }
         }
-        for (pi, (sc, f, history, reissue)) in pairs.iter().enumerate() {
+        for (pi, (sc, f, history, flags)) in pairs.iter().enumerate() {
+            let (reissue, clock_stepped_back) = (&(*flags & 1 != 0), *flags & 2 != 0);
             if pi as u32 % params.workers != params.worker {
                 continue;
             }
             // dry run under strace without injection: how many matching syscalls, and where the first status poll starts
-            let dry = Case { scenario: *sc, faults: f.clone(), kill_at: None, kill_call: None, store_history: *history, reissue: *reissue };
+            let dry = Case { scenario: *sc, faults: f.clone(), kill_at: None, kill_call: None, store_history: *history, reissue: *reissue, clock_stepped_back };
             let key_dir = env.work.join("keys");
             if let Err(e) = prepare(&env, &dry, &key_dir) {
                 stats.inconclusive.push(format!("{:?}/{:?}: {}", sc, f, e));
@@ -646,7 +673,7 @@ fn main() {
                         None => continue,
                     },
                 };
-                plan.push(Case { scenario: *sc, faults: f.clone(), kill_at: Some(n), kill_call: Some(call), store_history: *history, reissue: *reissue });
+                plan.push(Case { scenario: *sc, faults: f.clone(), kill_at: Some(n), kill_call: Some(call), store_history: *history, reissue: *reissue, clock_stepped_back });
             }
         }
     }
@@ -658,6 +685,9 @@ fn main() {
         }
         if c.reissue {
             stats.class("host:hands-the-same-pending-key-out-again-until-attested");
+        }
+        if c.clock_stepped_back {
+            stats.class("restart:key-files-stamped-in-the-future(clock-set-back)");
         }
         if c.faults != HostFaults::None {
             stats.class(&format!("host-faults:{:?}", c.faults));
